@@ -15,6 +15,12 @@ RULE = ("poly.ring cases for every pair of lengths 0..9 (the empty polynomial an
         "poly.calc for every length of p with 5 (Rat) / 2 (float kinds) lengths of q (all pairs in the thorough tier), "
         "derivative orders 0..len+1 (= degree+2, one beyond the quantifier); poly.access for every length 0..5 x every index 0..len+1; "
         "poly.ctor; a family of general (inexact) f64/Complex operands for the bitwise tie (order of floating-point operations; oracle within 256*2^-53 of the running error bound of each compared value); values sampled (seeded), shapes exhaustive; distinct = distinct executor line; "
+        "special STRUCTURE (driver/polylib.py: STRUCTS, RELATIONS, special_scalars): families related-* (q = p by value as a separate object, -p, c*p, x^k*p, p reversed, p', p with one "
+        "coefficient changed), struct-* (one operand -- the longer one; thorough: also the shorter one and both -- all-zero of length >= 2, one-term c*x^k, two or more vanishing leading "
+        "coefficients, zero interior, all ones, alternating signs, all equal, zeros of either sign (-0.0), every coefficient from the special menu 0 -0.0 1 -1 2 1/2 and for Complex "
+        "+-i +-ki 1+-i), evaluation point and scalar factor from the same menu, access-special-* (the same classes, index first / last / one past the end), ctor-special-* (a vanishing "
+        "leading argument included), hist-* (kind poly.hist, search-only: p[i]=x;trim -> p, degree, is_zero; trim;trim; trim;p[i]=x; coeffs().len()/push; coeffs()[i]=x; trim then + * - "
+        "eval derivative; p[i]=x then eval derivative *); quick tier: two lengths per relation and one or two shapes per class, rotating with the seed; thorough: all lengths 1..9 / 20 shapes; "
         "non-trivial = both operands of degree >= 1 (ring/calc), non-empty polynomial (access)")
 TRUSTED = ["Coq 8.16.1 kernel + vm_compute (primitive floats bit-exact)", "Rust executor /verif/harness (Rat = i128 rationals; k_poly.rs uses the public Polynomial API only)",
            "python driver: generators, textbook coefficient-list reference in Fraction / Gaussian rationals (driver/polylib.py), stream comparators",
@@ -34,7 +40,9 @@ MANIFEST = dict(
           "the derivative is linear and satisfies the product rule (as equalities of coefficient lists), derivative_n p (deg+1) is empty and higher "
           "orders panic; is_zero / trim / index specifications (where == decides equality); instantiated at Qc. The same Gallina "
           "functions are run against the implementation (Rat vs Qc exact; f64 and Complex<f64> bitwise) on every pair of lengths 0..9, "
-          "plus general inexact floats (bitwise: pins the order of the floating-point operations), "
+          "plus general inexact floats (bitwise: pins the order of the floating-point operations), plus operands with special structure (equal / negated / scaled / shifted operands, "
+          "all-zero, one-term, negative zeros, special values 0 1 -1 2 1/2 +-i as coefficients, evaluation points and scalar factors) and histories (index-assign, trim, coeffs() "
+          "followed by the views and operators; search only), "
           "and an independent textbook coefficient-list model in exact arithmetic searches for a failing input."),
     note=("eval/derivative of the empty polynomial panic (code and model alike) and are outside the 'acts as zero' claim; "
           "operand non-mutation and owned=borrowed forms are observed at run time, not proved."),
@@ -108,14 +116,91 @@ def generate(rng, tier):
                 c = mk_case(elt, kind, vals, "general-%s-%s" % (kind, elt), nontrivial=(lp >= 2 and lq >= 2))
                 c.meta["approx"] = True
                 cases.append(c)
+    cases += special_structure_cases(rng, tier)
     # printing 64-bit patterns dominates the model run: mix the element kinds so that the coqc shards are balanced
     return rng.fork("order").shuffle(cases)
+
+def spx(g, elt):
+    """evaluation point / scalar factor from the special menu: 0, -0.0, 1, -1, 2, 1/2, for Complex also +-i, 1+-i, ..."""
+    return g.choice(special_scalars(elt))
+
+def special_structure_cases(rng, tier):
+    """Operands with special STRUCTURE (the random menus above draw each coefficient independently, so operands that are
+    related to one another, all-zero, one-term, ... occur rarely or never):
+      related-<elt>     q stands in a relation to p: equal values (a separate object), -p, c*p, x^k*p, reversed, p', one
+                        coefficient different -- fast paths keyed on `p == q` (squaring, p - p = 0, ...) and cancellation
+      struct-<elt>      one operand (the LONGER one; in the thorough tier also the shorter one and both) from a structural
+                        class: all-zero of length >= 2, monomial c*x^k, two or more vanishing leading coefficients, zero
+                        interior, all ones, alternating signs, all equal, zeros of either sign (-0.0), every coefficient
+                        from the special menu (Complex: on the axes, +-i, 1+-i)
+      evaluation point and scalar factor from the special menu in all of them; the same classes for poly.access
+      (indices first / last / one past the end), special arguments for poly.ctor, and histories (poly.hist)."""
+    cases = []
+    thorough = tier == "thorough"
+    for elt in ('rat', 'f64', 'cplx'):
+        g = rng.fork("related-" + elt)
+        for k, rel in enumerate(RELATIONS):
+            lens = range(1, 10) if thorough else [g.range(3, 5), g.range(6, 9)]
+            for j, lp in enumerate(lens):
+                p = rpoly(g, elt, lp) if g.chance(2, 3) else struct_poly(g, elt, lp, "axis")
+                q = related_poly(g, elt, p, rel)
+                if g.chance(1, 2) and rel not in ("equal", "negated"): p, q = q, p
+                kinds = ("ring", "calc") if (thorough or rel == "equal") else (("ring",) if (j + k) % 2 == 0 else ("calc",))
+                for kind in kinds:
+                    vals = [p, q, spx(g, elt), spx(g, elt)] + ([len(p) + 1] if kind == "calc" else [])
+                    cases.append(mk_case(elt, kind, vals, "related-%s-%s" % (rel, elt), nontrivial=(len(p) >= 2 and len(q) >= 2)))
+        g = rng.fork("struct-" + elt)
+        for k, cls in enumerate(STRUCTS):
+            if elt == 'rat' and cls == "neg-zeros" and not thorough: continue
+            # (length of the structured operand, length of the other one)
+            shapes = [(a, b) for a in (1, 2, 3, 5, 8) for b in (1, 2, 4, 7)] if thorough else [(g.range(3, 7), g.range(1, 2)), (g.range(2, 4), g.range(4, 6))][:2 if k % 2 == 0 else 1]
+            for j, (a, b) in enumerate(shapes):
+                sp, other = struct_poly(g, elt, a, cls), rpoly(g, elt, b)
+                # ring: the structured operand on the right (p+q, q+p, p-q, q-p, p*q, q*p all see it); calc: on the left (its derivatives)
+                vals = [other, sp, spx(g, elt), spx(g, elt)]
+                cases.append(mk_case(elt, "ring", vals, "struct-%s-%s" % (cls, elt), nontrivial=(a >= 2 and b >= 2)))
+                if thorough or j == 0:
+                    cases.append(mk_case(elt, "calc", [sp, other, spx(g, elt), spx(g, elt), a + 1], "struct-%s-%s" % (cls, elt), nontrivial=(a >= 2 and b >= 2)))
+            # both operands structured (one rotating pair of classes per seed in the quick tier)
+            others = STRUCTS if thorough else [STRUCTS[(k + g.range(1, len(STRUCTS) - 1)) % len(STRUCTS)]]
+            for c2 in others:
+                a, b = g.range(2, 5), g.range(2, 5)
+                vals = [struct_poly(g, elt, a, cls), struct_poly(g, elt, b, c2), spx(g, elt), spx(g, elt)]
+                cases.append(mk_case(elt, "ring", vals, "struct-pair-" + elt))
+        g = rng.fork("access-special-" + elt)
+        for cls in STRUCTS:
+            if elt == 'rat' and cls == "neg-zeros": continue
+            for lp in (range(1, 6) if thorough else [g.range(2, 5)]):
+                p = struct_poly(g, elt, lp, cls)
+                for i in ((0, lp - 1, lp) if thorough else (g.choice([0, lp - 1]), lp)):
+                    cases.append(mk_case(elt, "access", [p, i, spx(g, elt)], "access-special-" + elt))
+        g = rng.fork("hist-" + elt)
+        classes = ("random",) + STRUCTS
+        for k, cls in enumerate(classes):
+            if elt == 'rat' and cls == "neg-zeros": continue
+            if not thorough and (k + g.below(2)) % 2: continue            # half of the classes per seed
+            for lp in (range(0, 6) if thorough else [g.range(1, 5)]):
+                p = (rpoly(g, elt, lp) if cls == "random" else struct_poly(g, elt, lp, cls)) if lp else []
+                q = rpoly(g, elt, g.range(0, 4))
+                # index: first, last, one past the end; value: zero (the assignment creates a vanishing leading coefficient) or special
+                for i in ((0, max(lp - 1, 0), lp) if thorough else (g.choice([0, max(lp - 1, 0)]), max(lp - 1, 0) if g.chance(2, 3) else lp)):
+                    x = conv(elt, 0) if g.chance(1, 2) else spx(g, elt)
+                    cases.append(mk_case(elt, "hist", [p, q, i, x], "hist-" + elt, nontrivial=(lp > 0)))
+        g = rng.fork("ctor-special-" + elt)
+        menu = special_scalars(elt)
+        for k in range(len(menu) if thorough else 3):
+            # each argument in turn from the special menu (a vanishing leading coefficient a = 0 included), the others random
+            v = [sval(g, elt) for _ in range(4)]
+            v[k % 4] = menu[(k + g.below(len(menu))) % len(menu)] if not thorough else menu[k]
+            if k % 3 == 0: v[0] = conv(elt, 0)
+            cases.append(mk_case(elt, "ctor", v, "ctor-special-" + elt))
+    return cases
 
 def exact_zero(elt):
     return {'rat': Fraction(0), 'f64': 0.0, 'cplx': complex(0.0, 0.0)}[elt]
 
 def case_from_json(j):
-    return case_from_json_common(j, ("ring", "calc", "access", "ctor"))
+    return case_from_json_common(j, ("ring", "calc", "access", "ctor", "hist"))
 
 # ------------------------------------------------------------------ oracle
 _APPROX = False      # False: exact comparison; True: general-float case, every expected value carries a running bound
@@ -288,13 +373,83 @@ def oracle_ctor(elt, vals, st):
     if st.int() != -1: return "degree() of the empty polynomial is not an error"
     return None
 
+def _trimmed(P):
+    k = len(P)
+    while k > 1 and P[k - 1] == 0: k -= 1
+    return P[:k]
+
+def oracle_hist(elt, vals, st):
+    """histories: the expected answer of every block from the textbook model (lists), a panic where the first
+    operation of the block has no meaning (index beyond the CURRENT size; trim / eval / derivative of the empty one)"""
+    p, q, i, x = vals
+    P, Q = [exact(elt, a) for a in p], [exact(elt, a) for a in q]
+    X = exact(elt, x); z = zero_of(elt)
+    def want_panic(name):
+        if not st.peek_panic(): return "%s: expected a panic" % name
+        st.pos += 1
+        return None
+    # H1: p[i] = x; trim
+    if i >= len(P): m = want_panic("H1 p[%d] = x beyond the size %d" % (i, len(P)))
+    else:
+        c = _trimmed(P[:i] + [X] + P[i + 1:])
+        m = _exp_poly("H1 p after p[%d] = %s; trim" % (i, X), st.poly_or_panic(), c)
+        if not m:
+            d, zf = st.int(), st.int()
+            if d != len(c) - 1: m = "H1 degree() after p[%d] = %s; trim is %d, expected %d" % (i, X, d, len(c) - 1)
+            elif zf != (1 if all(a == 0 for a in c) else 0): m = "H1 is_zero() after p[%d] = %s; trim is %d on %s" % (i, X, zf, _show(c))
+    if m: return m
+    # H2: trim; trim
+    if not P:
+        if st.peek_panic(): st.pos += 1          # trim of the empty polynomial: a panic (as pinned) or no change
+        else:
+            m = _exp_poly("H2 trim; trim of the empty polynomial", st.poly(), []); st.int()
+    else:
+        m = _exp_poly("H2 p after trim; trim", st.poly_or_panic(), _trimmed(P))
+        if not m and st.int() != 1: m = "H2 the second trim changed a trimmed polynomial"
+    if m: return m
+    # H3: trim; p[i] = x
+    t = _trimmed(P)
+    if not P or i >= len(t):
+        m = want_panic("H3 trim; p[%d] = x beyond the trimmed size %d" % (i, len(t)))
+    else: m = _exp_poly("H3 p after trim; p[%d] = %s" % (i, X), st.poly_or_panic(), t[:i] + [X] + t[i + 1:])
+    if m: return m
+    # H4: coeffs().len(); coeffs().push(x)
+    n = st.int()
+    if n != len(P): return "H4 coeffs().len() = %d for %d coefficients" % (n, len(P))
+    m = _exp_poly("H4 p after coeffs().push(%s)" % X, st.poly(), P + [X])
+    if m: return m
+    d = st.int()
+    if d != len(P): return "H4 degree() after coeffs().push is %d, expected %d" % (d, len(P))
+    # H5: coeffs()[i] = x
+    if i >= len(P): m = want_panic("H5 coeffs()[%d] = x beyond the size" % i)
+    else: m = _exp_poly("H5 p after coeffs()[%d] = %s" % (i, X), st.poly_or_panic(), P[:i] + [X] + P[i + 1:])
+    if m: return m
+    # H6: trim then operate
+    if not P:
+        m = want_panic("H6 trim of the empty polynomial")
+    elif st.peek_panic():
+        m = "H6 trim p, then t+q, t*q, q-t, t(x), t' panicked"
+    else:
+        m = (_exp_poly("H6 trim(p)+q", st.poly(), ref_add(t, Q)) or _exp_poly("H6 trim(p)*q", st.poly(), ref_mul(t, Q, z))
+             or _exp_poly("H6 q-trim(p)", st.poly(), ref_sub(Q, t)) or _exp_scalar("H6 trim(p)(%s)" % X, st.scalar(), ref_eval(t, X, z))
+             or _exp_poly("H6 trim(p)'", st.poly(), ref_deriv(t)))
+    if m: return m
+    # H7: assign then operate
+    if i >= len(P): m = want_panic("H7 p[%d] = x beyond the size" % i)
+    elif st.peek_panic(): m = "H7 p[%d] = %s, then p(x), p', p*q panicked" % (i, X)
+    else:
+        c = P[:i] + [X] + P[i + 1:]
+        m = (_exp_scalar("H7 p(%s) after p[%d] = %s" % (X, i, X), st.scalar(), ref_eval(c, X, z))
+             or _exp_poly("H7 p' after p[%d] = %s" % (i, X), st.poly(), ref_deriv(c)) or _exp_poly("H7 p*q after p[%d] = %s" % (i, X), st.poly(), ref_mul(c, Q, z)))
+    return m
+
 def oracle(case, items):
     global _APPROX
     kind, vals = case_vals(case)
     st = Stream(case.elt, items)
     _APPROX = bool(case.meta.get("approx"))
     try:
-        f = {"ring": oracle_ring, "calc": oracle_calc, "access": oracle_access, "ctor": oracle_ctor}[kind]
+        f = {"ring": oracle_ring, "calc": oracle_calc, "access": oracle_access, "ctor": oracle_ctor, "hist": oracle_hist}[kind]
         m = f(case.elt, vals, st)
         if m is None and not st.done():
             m = "answer has %d unexpected trailing items" % (len(items) - st.pos)
